@@ -27,6 +27,7 @@ Section TyInd.
   Hypothesis HEnum : forall lit vals, P (TEnum lit vals).
   Hypothesis HTyped : forall names ts req, Forall P ts -> P (TTyped names ts req).
   Hypothesis HOpaque : forall n, P (TOpaque n).
+  Hypothesis HAnn : forall cs a, P a -> P (TAnn cs a).
   Fixpoint ty_ind' (t: ty) : P t :=
     match t with
     | TInt => HInt | TFloat => HFloat | TBool => HBool | TStr => HStr | TNone => HNone | TAny => HAny
@@ -47,6 +48,7 @@ Section TyInd.
     | TTyped names ts req => HTyped names ts req ((fix go (l: list ty) : Forall P l :=
                                  match l with [] => Forall_nil _ | x :: r => Forall_cons _ (ty_ind' x) (go r) end) ts)
     | TOpaque n => HOpaque n
+    | TAnn cs a => HAnn cs a (ty_ind' a)
     end.
 End TyInd.
 
@@ -113,6 +115,14 @@ Section Unfold.
     SF fuel (TLeaf tp fmt pat) st =
     if is_type_name tp && match fmt with Some f => str_mem f formats | None => true end
     then SOk (leaf_sk tp fmt pat, st) else SErr.
+  Proof. destruct fuel; reflexivity. Qed.
+  Lemma sf_ann fuel cs a st :
+    SF fuel (TAnn cs a) st =
+    if forallb ann_ok cs
+    then match SF fuel a st with
+         | SOk (s, st1) => SOk (apply_anns cs (akind_of a) s, st1)
+         | SFuel => SFuel | SErr => SErr end
+    else SErr.
   Proof. destruct fuel; reflexivity. Qed.
   Lemma sf_opaque fuel n st : SF fuel (TOpaque n) st = SErr.
   Proof. destruct fuel; reflexivity. Qed.
@@ -254,6 +264,7 @@ Section Generic.
       is_type_name tp = true -> match fmt with Some f => str_mem f formats | None => true end = true -> Sp ks (leaf_sk tp fmt pat).
   Hypothesis G_enum : forall ks lit vals, Sp ks (enum_sk lit vals).
   Hypothesis G_descr : forall ks s d, Sp ks s -> Sp ks (set_description s d).
+  Hypothesis G_ann : forall ks cs k s, forallb ann_ok cs = true -> Sp ks s -> Sp ks (apply_anns cs k s).
   Hypothesis G_ntobj : forall ks props req,
       (forall k d, In (k, d) props -> G ks d) -> NoDup req -> Sp ks (ntobj_sk props req).
   Hypothesis G_default : forall ks s d, Sp ks s -> Sp ks (set_default s d).
@@ -371,6 +382,9 @@ Section Generic.
         apply G_obj; [|apply isort_nodup; apply req_keys_nodup; apply str_nodup_true; exact Eg1].
         intros k d Hin. apply in_combine_r in Hin. rewrite Forall_forall in B. apply B. exact Hin.
       + rewrite sf_opaque in Hs. discriminate.
+      + rewrite sf_ann in Hs. destruct (forallb ann_ok cs) eqn:Ea; try discriminate.
+        destruct (schema_fuel E cfg 0 t st) as [[s1 st1]| |] eqn:E1; try discriminate.
+        inversion Hs; subst. destruct (IHt _ _ _ E1 HI) as (A & B & C). repeat split; auto.
     - intros t. induction t using ty_ind'; intros st s st' Hs HI;
         try (destruct (sf_scalar E cfg (S fuel) st) as (H1 & H2 & H3 & H4 & H5 & H6);
              first [rewrite H1 in Hs | rewrite H2 in Hs | rewrite H3 in Hs | rewrite H4 in Hs | rewrite H5 in Hs | rewrite H6 in Hs];
@@ -433,6 +447,9 @@ Section Generic.
         apply G_obj; [|apply isort_nodup; apply req_keys_nodup; apply str_nodup_true; exact Eg1].
         intros k d Hin. apply in_combine_r in Hin. rewrite Forall_forall in B. apply B. exact Hin.
       + rewrite sf_opaque in Hs. discriminate.
+      + rewrite sf_ann in Hs. destruct (forallb ann_ok cs) eqn:Ea; try discriminate.
+        destruct (schema_fuel E cfg (S fuel) t st) as [[s1 st1]| |] eqn:E1; try discriminate.
+        inversion Hs; subst. destruct (IHt _ _ _ E1 HI) as (A & B & C). repeat split; auto.
   Qed.
 
   Theorem build_inv fuel wd uri t st d st' :
